@@ -2,6 +2,7 @@ import SynthVerif.Tie.QuantRun
 import SynthVerif.Tie.QuantSearch
 import SynthVerif.Props.C07
 import SynthVerif.Props.C08
+import SynthVerif.Props.C08Volts
 import SynthVerif.Props.C09
 import SynthVerif.Props.C09Ramp
 import SynthVerif.Props.C09Noise
@@ -93,6 +94,24 @@ theorem c08_fresh_monotone (s t : Src.quantizer.Quantizer) (hs : Fresh s) (ht : 
   have := C08.convertFresh_monotone s.allowed ha q q' nz nz' h0 hqq h10
   rw [← hc, ← hc'] at this
   exact this
+
+/-- **C08 in volts, on the source**: a history-free conversion of `v ∈ [0, 10]` V reports the note of an allowed position `r` (µV)
+that obeys the two regimes of `C08.pick_real` around `10^6·v`: an allowed note clearly within a semitone ⇒ the lowest such; all
+allowed notes clearly farther ⇒ a nearest one up to 3 µV -/
+theorem c08_volts (s : Src.quantizer.Quantizer) (hf : Fresh s)
+    (ha : ∃ n, n < 12 ∧ _root_.Quantizer.bit s.allowed n = true) (q : ℚ) (nz : Bool) (h0 : 0 ≤ q) (h10 : q ≤ 10) :
+    ∃ s' c, Src.quantizer.Quantizer.convert s (.fin q nz) = some (s', c) ∧
+      ∃ r : ℕ, c.note_num = (r / Gen.halfStepUv) % 256 ∧ r ∈ C08.globalCands s.allowed ∧
+        ((∃ k ∈ C08.globalCands s.allowed, |(k:ℚ) - q * 1000000| < 83333 - 2) →
+          |(r:ℚ) - q * 1000000| < 83333 + 2 ∧
+          ∀ k ∈ C08.globalCands s.allowed, k < r → (83333:ℚ) - 2 ≤ |(k:ℚ) - q * 1000000|) ∧
+        ((∀ k ∈ C08.globalCands s.allowed, (83333:ℚ) + 2 ≤ |(k:ℚ) - q * 1000000|) →
+          ∀ k ∈ C08.globalCands s.allowed, |(r:ℚ) - q * 1000000| ≤ |(k:ℚ) - q * 1000000| + 3) := by
+  obtain ⟨s', c, e, _, hc⟩ := convert_sim s (.fin q nz)
+  rw [abs_fresh hf, C09.history_free] at hc
+  obtain ⟨r, hn, hr, p2, p3⟩ := C08.volts_rule s.allowed ha q nz h0 h10
+  refine ⟨s', c, e, r, ?_, hr, p2, p3⟩
+  rw [← hn, ← hc]; rfl
 
 /-! ## C09 — hysteresis -/
 
